@@ -244,11 +244,11 @@ class Solver:
         return node.z3
 
     # ------------------------------------------------------------------
-    def check(self, pc, extras=(), conds=(), raw=()):
+    def check(self, pc, extras=(), conds=(), raw=(), nocache=False):
         """satisfiability of  pc(MDD) /\\ extras /\\ conds.  returns 'sat'|'unsat'|'unknown'"""
         key = (pc.id if pc is not None else -1, tuple(e.id for e in extras), tuple(e.id if e.__class__ is Term else e for e in conds), tuple(r.get_id() for r in raw))
         r = self.cache.get(key)
-        if r is not None:
+        if r is not None and not (nocache and r == 'sat'):
             return r
         if pc is None:
             return 'unsat'
